@@ -180,6 +180,13 @@ func (w *world) runCase(cs *caseSpec) (res result) {
 		flushLat()
 		res.Trace = append(res.Trace, burst...)
 	}
+	// after an accepted answer the block travels through the queue to the fake
+	// blockchain; everything else that arrives meanwhile waits for it
+	awaiting := false
+	stuck := 0
+	var grace <-chan time.Time
+	var awaitSince time.Time
+	var pending []event
 	answer := func(e event) {
 		b, wh := w.behOf(cs, e.peer, e.height)
 		a := action{beh: b, variant: cs.Variant + int(e.height) + e.peer, height: e.height}
@@ -188,16 +195,35 @@ func (w *world) runCase(cs *caseSpec) (res result) {
 		}
 		perPeer[e.peer]--
 		if b == bStall {
-			return // never answered: the client gives up after its own timeout
+			// never answered.  The requesting goroutine is given 13 s (its request context is 10 s)
+			// to give up; nothing else waits for it.
+			stuck++
+			if grace == nil {
+				grace = time.After(13 * time.Second)
+			}
+			return
+		}
+		if b == bOk || b == bWrong {
+			awaiting = true
+			awaitSince = time.Now()
 		}
 		e.act <- a
 	}
-	sawLatAfterStart := false
+	groupSize := 0
+	started := false // the first task list has been built and the goroutines run
 	handle := func(e event) {
 		switch e.kind {
 		case evLat:
-			if sawLatAfterStart && phase == 1 {
+			if started && phase == 1 {
 				// a second initJob: phase two has begun
+				groupSize = len(latRun)
+				for _, o := range res.Trace {
+					if o.K == "init" {
+						groupSize = len(o.L)
+						break
+					}
+				}
+				flushLat()
 				phase = 2
 				endBurst()
 				inflight = 0
@@ -206,8 +232,12 @@ func (w *world) runCase(cs *caseSpec) (res result) {
 				}
 			}
 			latRun = append(latRun, e.peer)
+			if phase == 2 && groupSize > 0 && len(latRun) == groupSize {
+				// every initJob asks for the same peers: one group per re-download
+				flushLat()
+			}
 		case evReq:
-			sawLatAfterStart = true
+			started = true
 			if e.end != e.height {
 				res.Odd = "request with start != end"
 			}
@@ -231,8 +261,12 @@ func (w *world) runCase(cs *caseSpec) (res result) {
 				inflight--
 			}
 		case evDeliver:
-			sawLatAfterStart = true
-			record(obs{K: "del", H: e.height, P: e.peer})
+			started = true
+			p := e.peer
+			if p < 0 {
+				p = 99
+			}
+			record(obs{K: "del", H: e.height, P: p})
 			if phase == 1 && inflight > 0 {
 				inflight--
 			}
@@ -242,18 +276,44 @@ func (w *world) runCase(cs *caseSpec) (res result) {
 			res.Finished = true
 		}
 	}
+	var dispatch func(e event)
+	flushPending := func() {
+		ps := pending
+		pending = nil
+		for _, x := range ps {
+			dispatch(x)
+		}
+	}
+	dispatch = func(e event) {
+		if awaiting && e.kind != evDeliver {
+			pending = append(pending, e)
+			return
+		}
+		handle(e)
+		if e.kind == evDeliver && awaiting {
+			awaiting = false
+			flushPending()
+		}
+	}
+	checkAwait := func() {
+		if awaiting && time.Since(awaitSince) > 2*time.Second {
+			awaiting = false // the block never arrived
+			flushPending()
+		}
+	}
 	// settle: wait until no phase-one goroutine is in flight
 	settle := func() bool {
-		for inflight > 0 && !res.Finished && phase == 1 {
+		for (inflight > 0 || awaiting) && !res.Finished && phase == 1 {
 			select {
 			case e := <-w.ev:
-				if e.kind == evReq || e.kind == evDeliver {
-					sawLatAfterStart = true
-				}
-				handle(e)
+				dispatch(e)
 			case <-time.After(4 * time.Millisecond):
+				checkAwait()
+				if awaiting || inflight == 0 {
+					continue
+				}
 				live, sleeping, inWait := census()
-				if inWait && len(held)+sleeping == live {
+				if inWait && len(held)+sleeping+stuck == live {
 					inflight = 0
 				}
 			case <-deadline:
@@ -263,29 +323,14 @@ func (w *world) runCase(cs *caseSpec) (res result) {
 		}
 		return true
 	}
-	if n == 0 {
-		// nothing to download: wait for the handler to return
-		for !res.Finished {
-			select {
-			case e := <-w.ev:
-				handle(e)
-			case <-deadline:
-				res.Odd = "budget exhausted"
-				return
-			}
-		}
-		return
-	}
-	// the first initJob's latency calls arrive before any request
-	sawLatAfterStart = false
 	if !settle() {
 		return
 	}
-	sawLatAfterStart = true
+	started = true
 	endBurst()
 	fixed := append([]int64(nil), cs.Fixed...)
 	for !res.Finished {
-		if phase == 1 && len(held) > 0 {
+		if phase == 1 && len(held) > 0 && !awaiting {
 			var hs []int64
 			for h := range held {
 				hs = append(hs, h)
@@ -305,7 +350,11 @@ func (w *world) runCase(cs *caseSpec) (res result) {
 			delete(held, pick)
 			res.Replies = append(res.Replies, pick)
 			inflight = 1
+			before := stuck
 			answer(e)
+			if stuck > before {
+				inflight = 0
+			}
 			if !settle() {
 				return
 			}
@@ -313,7 +362,14 @@ func (w *world) runCase(cs *caseSpec) (res result) {
 		}
 		select {
 		case e := <-w.ev:
-			handle(e)
+			dispatch(e)
+		case <-time.After(200 * time.Millisecond):
+			checkAwait()
+		case <-grace:
+			// a goroutine still waits for the silent peer: the task does not return
+			flushLat()
+			endBurst()
+			return
 		case <-deadline:
 			res.Odd = "budget exhausted"
 			return
